@@ -161,6 +161,9 @@ func runC02(env *core.Env) {
 	run("new-task-bodystdin{state}||prune/S_A", f.SA, 2, core.R("", "--json", "new", "task", "--title", "ND0", "--state", "done", "--body-stdin").In("body"), core.R("", "--json", "prune", "--yes"))
 	// dependency-sensitive pairs on S_dep and triples over the hottest commands
 	run("sequence-rm||claim/S_dep", f.SDep, 2, core.R("", "--json", "sequence", "rm", f.T1, f.T2), claimReq("a1"))
+	// init re-run on a live store while one writer is inside its lock section and another one arrives
+	run("claim||init||claim/S_A", f.SA, 2, claimReq("a1"), core.R("", "--json", "init"), claimReq("a2"))
+	run("new-task||init||set/S_A", f.SA, 1, core.R("", "--json", "new", "task").In(`{"title":"N0"}`), core.R("", "--json", "init"), core.R("", "--json", "set", f.T2).In(`{"state":"done"}`))
 	run("prune||reopen||claim/S_A", f.SA, 1, core.R("", "--json", "prune", "--yes"), core.R("", "--json", "set", f.T4).In(`{"state":"todo"}`), claimReq("a1"))
 	run("compact||new-task||set/S_A", f.SA, 1, core.R("", "--json", "compact"), core.R("", "--json", "new", "task").In(`{"title":"N0"}`), core.R("", "--json", "set", f.T2).In(`{"state":"done"}`))
 	run("plan||claim||compact/S_A", f.SA, 1, core.R("", "--json", "plan").In(`{"title":"P0","tasks":[{"title":"pa"},{"title":"pb","after":["pa"]}]}`), claimReq("a1"), core.R("", "--json", "compact"))
